@@ -2,7 +2,8 @@ def plan(tier):
     q = tier == "quick"
     return {
         "mc": [{"module": "SeqBasicsMC", "cfg": "SeqBasicsMC.cfg" if q else "SeqBasicsMC_thorough.cfg",
-                "timeout": 2400, "workers": 6 if q else 12}],
+                "timeout": 2400, "workers": 6 if q else 12},
+               {"module": "SeqBasicsMC", "cfg": "SeqBasicsMC_overlap.cfg", "timeout": 1200, "workers": 6}],
         "families": [{"fam": "orf", "trace": "SeqBasicsTrace"},
                      {"fam": "seqbasics", "trace": "SeqBasicsTrace"}],
         "required_obligations": [
@@ -12,7 +13,9 @@ def plan(tier):
             "alpha_empty", "alpha_all_256", "alpha_word_with_planted_symbol", "gc_empty_and_single",
             "gc3_len_not_multiple_of_3", "orf_codons_with_nul_and_suffix_heads",
             "more_than_2p24_gc_symbols", "more_than_2p24_gc3_symbols", "more_than_2p32_symbols_in_one_gc_call",
-            "orf_start_codons_not_ascending", "orf_stop_codons_not_ascending", "orf_repeated_codon"],
+            "orf_start_codons_not_ascending", "orf_stop_codons_not_ascending", "orf_repeated_codon",
+            "orf_codon_both_start_and_stop", "orf_finder_cloned", "orf_iterator_forked_at_every_position",
+            "orf_fork_with_found_orfs_pending"],
         "rule": "orf: one run = one Finder (start/stop codon sets, min_len) applied to several sequences; all "
                 "sequences over {A,T,G} up to length 9 (10 thorough) with min_len rotating over 0,1,3,4,5,6, codon "
                 "soups up to 300 symbols for four start/stop sets (standard, three starts/one stop, arbitrary bytes, "
@@ -23,7 +26,9 @@ def plan(tier):
                 "eight predefined alphabets, gc/gc3 content on sequences up to 300 and on streamed repetitions of a short "
                 "unit (logged as unit + count, up to 5.1*10^7 symbols, more than 2^24 G/C symbols per call) and on two streamed segments (unit, multiple of a 3*2^20 chunk; "
                 "one call with 4.3*10^9 > 2^32 symbols); codon sets are also given in descending / rotated order and "
-                "with repeated codons; orf also: "
+                "with repeated codons, and with codons that are both start and stop (incl. all sequences over {A,T,G} "
+                "up to length 8 for starts ATG,TGA / stops TGA,TAA); the find_all iterator is forked (cloned) after "
+                "every number of items and both continuations are judged, on a cloned Finder; orf also: "
                 "codon sets with 0x00 / blank / 0xFF bytes in every position, all sequences shorter than a codon, "
                 "heads equal to every proper suffix of every codon followed by an in-frame stop",
         "bounds": {"mc": "finder machine: all sequences over {A,T,G} up to length 9, start ATG, stops TAG/TGA/TAA, "
@@ -32,7 +37,9 @@ def plan(tier):
                    "impl": "sequences <= 300 (gc: repeated units up to 5.1*10^7 symbols), codon sets over arbitrary bytes, "
                            "alphabets <= 256 symbols"},
         "assumptions": ["ndJsonDeserialize/TLC evaluate the TLA+ definitions faithfully",
-                        "start and stop codon sets are disjoint (precondition)",
+                        "a codon may be both a start and a stop codon: it closes the frames open in its reading frame and its "
+                        "own frame (the codon itself, length 3) and leaves nothing open -- the behaviour of the "
+                        "unchanged code, model-checked against the generalised frame definition (cfg _overlap)",
                         "gc fractions are projected by the harness to round(x*10^6); accepted when within "
                         "len/10^6 of the exact fraction; the fraction of an empty sequence is unconstrained",
                         "RankTransform::get/transform are only asked for members of the alphabet"],
